@@ -75,6 +75,9 @@ writers already used for this property (do not repeat them or close variants):
 
 ## Procedure
 
+Never use `git stash` (the stash is shared with other worktrees of this repository and other writers work in parallel);
+run the suite as `go test -vet=off -count=1 $(go list ./... | grep -v /out/)` so that your files under out/ are not taken for packages.
+
 For each change: start from a clean tree (`git checkout -- . && git clean -fdq -e out`), make the edit, run the build, the
 full suite and your demo; save the files; then restore the clean tree and check that the demo passes there and that the
 saved patch applies. Verify each patch independently of the others. When you finish, leave the worktree clean (only
